@@ -1158,62 +1158,106 @@ func RFoldExit(c *core.Ctx) {
 		return
 	}
 	n := 0
+	// replace() itself, and the helpers it hands its count to (the evaluator loops factored out per direction)
+	type unit struct {
+		fd    *ast.FuncDecl
+		count types.Object
+	}
+	units := []unit{{fd, countObj}}
 	ast.Inspect(fd.Body, func(x ast.Node) bool {
-		fs, ok := x.(*ast.ForStmt)
-		if !ok || fs.Cond == nil {
+		call, ok := x.(*ast.CallExpr)
+		if !ok {
 			return true
 		}
-		be, ok := ast.Unparen(fs.Cond).(*ast.BinaryExpr)
-		if !ok || be.Op != token.NEQ {
+		fn := core.Callee(info, call)
+		if fn == nil || fn.Pkg() != pk.Types {
 			return true
 		}
-		if tv, ok := info.Types[be.Y]; !ok || !tv.IsNil() {
+		cd, _ := p.DeclOf(fn)
+		if cd == nil || cd.Body == nil || cd == fd || cd.Type.Params == nil {
 			return true
 		}
-		var stack []ast.Node
-		ast.Inspect(fs.Body, func(y ast.Node) bool {
-			if y == nil {
-				stack = stack[:len(stack)-1]
-				return true
+		// the parameter that receives count
+		var prms []types.Object
+		for _, f := range cd.Type.Params.List {
+			for _, nm := range f.Names {
+				prms = append(prms, info.ObjectOf(nm))
 			}
-			stack = append(stack, y)
-			if _, isLoop := y.(*ast.ForStmt); isLoop {
-				return false
-			}
-			br, ok := y.(*ast.BranchStmt)
-			if !ok || br.Tok != token.BREAK {
-				return true
-			}
-			n++
-			guard := "unconditional"
-			okGuard := false
-			for i := len(stack) - 2; i >= 0; i-- {
-				if ifs, ok := stack[i].(*ast.IfStmt); ok {
-					guard = types.ExprString(ifs.Cond)
-					only := true
-					ast.Inspect(ifs.Cond, func(z ast.Node) bool {
-						if id, ok := z.(*ast.Ident); ok {
-							if obj := info.ObjectOf(id); obj != nil && obj != countObj {
-								if _, isVar := obj.(*types.Var); isVar {
-									only = false
-								}
-							}
-						}
-						if _, isCall := z.(*ast.CallExpr); isCall {
-							only = false
-						}
-						return true
-					})
-					okGuard = only
-					break
+		}
+		for i, a := range call.Args {
+			if id, ok := ast.Unparen(a).(*ast.Ident); ok && info.ObjectOf(id) == countObj && i < len(prms) {
+				dup := false
+				for _, u := range units {
+					if u.fd == cd {
+						dup = true
+					}
+				}
+				if !dup {
+					units = append(units, unit{cd, prms[i]})
 				}
 			}
-			c.Check(okGuard, fmt.Sprintf("replace / break #%d of an evaluator loop depends on the count only", n), br.Pos(),
-				"the loop is left under `%s`: ending the fold on anything but the count or the end of the match sequence drops matches that FindNextMatch would still deliver (the empty match at the end of the input after a match that reaches it)", guard)
-			return true
-		})
+		}
 		return true
 	})
+	for _, u := range units {
+		fd, countObj := u.fd, u.count
+		ast.Inspect(fd.Body, func(x ast.Node) bool {
+			fs, ok := x.(*ast.ForStmt)
+			if !ok || fs.Cond == nil {
+				return true
+			}
+			be, ok := ast.Unparen(fs.Cond).(*ast.BinaryExpr)
+			if !ok || be.Op != token.NEQ {
+				return true
+			}
+			if tv, ok := info.Types[be.Y]; !ok || !tv.IsNil() {
+				return true
+			}
+			var stack []ast.Node
+			ast.Inspect(fs.Body, func(y ast.Node) bool {
+				if y == nil {
+					stack = stack[:len(stack)-1]
+					return true
+				}
+				stack = append(stack, y)
+				if _, isLoop := y.(*ast.ForStmt); isLoop {
+					return false
+				}
+				br, ok := y.(*ast.BranchStmt)
+				if !ok || br.Tok != token.BREAK {
+					return true
+				}
+				n++
+				guard := "unconditional"
+				okGuard := false
+				for i := len(stack) - 2; i >= 0; i-- {
+					if ifs, ok := stack[i].(*ast.IfStmt); ok {
+						guard = types.ExprString(ifs.Cond)
+						only := true
+						ast.Inspect(ifs.Cond, func(z ast.Node) bool {
+							if id, ok := z.(*ast.Ident); ok {
+								if obj := info.ObjectOf(id); obj != nil && obj != countObj {
+									if _, isVar := obj.(*types.Var); isVar {
+										only = false
+									}
+								}
+							}
+							if _, isCall := z.(*ast.CallExpr); isCall {
+								only = false
+							}
+							return true
+						})
+						okGuard = only
+						break
+					}
+				}
+				c.Check(okGuard, fmt.Sprintf("replace / break #%d of an evaluator loop depends on the count only", n), br.Pos(),
+					"the loop is left under `%s`: ending the fold on anything but the count or the end of the match sequence drops matches that FindNextMatch would still deliver (the empty match at the end of the input after a match that reaches it)", guard)
+				return true
+			})
+			return true
+		})
+	}
 	if n == 0 {
 		c.Anchor("break statements in the evaluator loops of replace()")
 	}
